@@ -178,7 +178,24 @@ impl Mon<T, T> {
         let lost: Vec<u64> = before.keys().copied().filter(|k| !after.contains_key(k)).collect();
         let removing = matches!(op.code, Code::Remove | Code::RemoveEntry | Code::Retain | Code::DrainFilter | Code::Drain | Code::IntoIter | Code::Clear | Code::Entry | Code::RawEntryMut);
         match kind {
-            Cb::Hash => {}
+            Cb::Hash => {
+                // "a panicking Hash may drop elements being relocated": a single-key call made
+                // while a resize is in flight relocates at most R elements per key it adds (C02),
+                // and its main table cannot need re-hashing (C04), so no more than that many can
+                // be in flight when the hasher panics (an entry chain adds at most two keys)
+                if split && op_has_key(op.code) {
+                    let bound = 2 * st0.r + removing as usize;
+                    if lost.len() > bound {
+                        viol!(
+                            "C07",
+                            "{} elements lost {ctx}: a call on one key relocates at most R = {} elements, the others were waiting in the old table, not being relocated: {:?}",
+                            lost.len(),
+                            st0.r,
+                            &lost[..lost.len().min(24)]
+                        );
+                    }
+                }
+            }
             Cb::Eq | Cb::Closure => {
                 let bulk = matches!(op.code, Code::Retain | Code::DrainFilter);
                 if !bulk && lost.len() > 1 {
